@@ -24,8 +24,8 @@ RULE = (
     "option-like token / any mutation; distinct by (format id, token tuple) / (format shape, fault kind, spelling pattern)."
 )
 BOUND = {
-    "quick": "all sequences of length <= 3 over 30 tokens x 15 formats x 2 modes; 6 fault operators x 6000 generated lines",
-    "thorough": "all sequences of length <= 4 over 30 tokens x 15 formats x 2 modes, 150000 sampled of length 5-6; 6 fault operators x 150000 generated lines",
+    "quick": "all sequences of length <= 3 over 30 tokens x 15 formats x 2 modes; 7 fault operators x 6000 generated lines",
+    "thorough": "all sequences of length <= 4 over 30 tokens x 15 formats x 2 modes, 150000 sampled of length 5-6; 7 fault operators x 150000 generated lines",
 }
 ASSUMPTIONS = [
     "fault operators are applied only where exactly one fault results (unknown options at chunk boundaries, surplus positional not after a bare optional-value option, ...)",
